@@ -79,7 +79,8 @@ def plan_C02(tier, seed):
     return dict(level="exploration", rule=RULE_ARENA + "; C02 oracle: expected-bytes shadow of every live block compared after every call, closure call logs",
                 shards=arena_shards(seed, tier, ["contents", "allocator"], 80, 800)
                 + [sh(e, "vecdiff", seed, 700 + i, iters=(300 if tier == "quick" else 3000), ops=150) for i, e in enumerate(("debug", "release"))]
-                + [sh(e, "strdiff", seed, 710 + i, iters=(300 if tier == "quick" else 3000), ops=120) for i, e in enumerate(("debug", "release"))],
+                + [sh(e, "strdiff", seed, 710 + i, iters=(300 if tier == "quick" else 3000), ops=120) for i, e in enumerate(("debug", "release"))]
+                + [sh("release", "strdiff", seed, 715, decoders=1, exh=(2 if tier == "quick" else 3), random=(2000 if tier == "quick" else 50000))],
                 require={"shadow.blocks_verified": 100000, "c02.closure_logs_checked": 200, "vop.into_bump_slice": 100, "sop.into_bump_str": 20}, assumptions=ASSUME_COMMON)
 
 
@@ -90,9 +91,10 @@ def plan_C03(tier, seed):
 
 
 def plan_C04(tier, seed):
-    return dict(level="exploration", rule=RULE_ARENA + "; C04 oracle: address arithmetic on every returned pointer under a minimally-aligning allocator, constructor panic table",
-                shards=arena_shards(seed, tier, ["alignment", "general"], 80, 800) + [sh("debug", "ctor_table", seed, 0), sh("release", "ctor_table", seed, 1)],
-                require={"c04.pointers_checked": 10000, "c04.chunkless_requests": 50}, assumptions=ASSUME_COMMON)
+    return dict(level="exploration", rule=RULE_ARENA + "; C04 oracle: address arithmetic on every returned pointer under a minimally-aligning allocator, constructor panic table; collections layer: every vector buffer aligned for its element type after every op (u64, boxed payloads, align(32) and align(64) elements)",
+                shards=arena_shards(seed, tier, ["alignment", "general"], 80, 800) + [sh("debug", "ctor_table", seed, 0), sh("release", "ctor_table", seed, 1)]
+                + [sh(e, "vecdiff", seed, 750 + i, iters=(200 if tier == "quick" else 3000), ops=150, tracked=i % 2) for i, e in enumerate(("debug", "release"))],
+                require={"c04.pointers_checked": 10000, "c04.chunkless_requests": 50, "c04.collection_buffers_checked": 20000}, assumptions=ASSUME_COMMON)
 
 
 def plan_C06(tier, seed):
@@ -104,7 +106,8 @@ def plan_C06(tier, seed):
 def plan_C07(tier, seed):
     return dict(level="exploration", rule=RULE_ARENA + "; C07 oracle: conservation check (sum of usable bytes of ledger blocks <= limit) on every chunk acquisition while a limit is set; fitting requests must succeed; twin run without the feature",
                 shards=arena_shards(seed, tier, ["limits"], 100, 3000, miri_q=0, miri_t=2, asan_t=0)
-                + [sh(e, "limit_twin", seed, i, ma=ma, iters=(40 if tier == "quick" else 2500)) for i, (e, ma) in enumerate([(e, ma) for e in ("debug", "release") for ma in MAS])],
+                + [sh(e, "limit_twin", seed, i, ma=ma, iters=(40 if tier == "quick" else 2500)) for i, (e, ma) in enumerate([(e, ma) for e in ("debug", "release") for ma in MAS])]
+                + [sh(e, "c09", seed, 760 + i, ma=1, iters=1, ops=20, max_k=3) for i, e in enumerate(("debug", "release"))],
                 require={"c07.acquire_under_limit": 300}, assumptions=ASSUME_COMMON)
 
 
@@ -189,6 +192,9 @@ def plan_C18(tier, seed):
         for eng in ("debug", "release"):
             shards.append(sh(eng, "c18", seed + 1000 * rep, n, timeout=1800, ma=ma, iters=(10 if q else 1500), ops=150, quick=(1 if q else 0), vec_cases=(120 if q else 12000)))
             n += 1
+    # limits placed exactly at what an acquisition needs: the permitted chunk is the one taken
+    for i, (eng, ma) in enumerate([(e, ma) for e in ("debug", "release") for ma in MAS]):
+        shards.append(sh(eng, "limit_edge", seed, 770 + i, ma=ma, iters=(25 if q else 1500), ops=150))
     # the Vec differential carries a C18-tagged monitor (reserve inside the capacity neither moves nor regrows)
     for i, eng in enumerate(("debug", "release")):
         shards.append(sh(eng, "vecdiff", seed, 740 + i, iters=(200 if q else 4000), ops=150))
@@ -197,7 +203,7 @@ def plan_C18(tier, seed):
     return dict(level="exploration",
                 rule=("one evaluation = one capacity case (constructor with capacity c, then requests of multiples of MIN_ALIGN totalling c under 5 strategies, watched by the allocator ledger), one random history with chunk_capacity probes, "
                       "one growth case (volume x size distribution x initial capacity) or one Vec/String capacity/growth case; distinct = distinct parameter tuples"),
-                shards=shards, require={"c18.capacity_cases": 5000, "c18.capacity_probes": 1000, "c18.growth_cases": 100, "c18.vec_capacity_cases": 500, "c18.vec_growth_cases": 50},
+                shards=shards, require={"c18.capacity_cases": 5000, "c18.capacity_probes": 1000, "c18.growth_cases": 100, "c18.vec_capacity_cases": 500, "c18.vec_growth_cases": 50, "c18.limit_edge_acquisitions_compared": 5000, "c18.every_way_growth_cases": 100},
                 assumptions=ASSUME_COMMON + ["the asymptotic clauses are restated as explicit bounds: chunks <= 3+log2(occupied/64)+#requests larger than the current chunk; Vec moves <= 3+log2(n); held <= 6*max(occupied,capacity)+4*max_align+16KiB (arena), 24*occupied+16KiB (Vec with neighbours); new chunk never smaller than its predecessor in fault-free, limit-free, reset-free runs"])
 
 
